@@ -1033,6 +1033,36 @@ fn regroup_grid() -> Vec<Case> {
     v
 }
 
+/// signatures collected over several `sign` invocations: two incremental signs (`-i`, one key each)
+/// followed by a plain sign with every non-empty subset of the three keys, root threshold 2 and 3
+fn incremental_grid() -> Vec<Case> {
+    let palette = palette_of([keys::ED.start, keys::ED.start + 1, keys::EC.start]);
+    let ks = [P0, P1, P2];
+    let mut v = Vec::new();
+    for t in [2u64, 3] {
+        for first in 0..3 {
+            for second in 0..3 {
+                for subset in 1u8..8 {
+                    let mut steps = vec![Cmd::Init { version: None }, Cmd::AddKey { keys: vec![P0, P1, P2], roles: 15 }];
+                    for r in ROLES {
+                        steps.push(Cmd::SetThreshold { role: r, threshold: if r == ROLES[0] { t } else { 1 } });
+                    }
+                    steps.push(Cmd::Sign { keys: vec![ks[first].clone()], ignore_threshold: true, cross_sign: None });
+                    steps.push(Cmd::Sign { keys: vec![ks[second].clone()], ignore_threshold: true, cross_sign: None });
+                    // the order of the -k arguments matters to what is written last
+                    let mut last: Vec<KeyPick> = (0..3).filter(|i| subset & (1 << i) != 0).map(|i| ks[i].clone()).collect();
+                    if (first + second) % 2 == 1 {
+                        last.reverse();
+                    }
+                    steps.push(Cmd::Sign { keys: last, ignore_threshold: false, cross_sign: None });
+                    v.push(Case { palette, steps });
+                }
+            }
+        }
+    }
+    v
+}
+
 // ------------------------------------------------------------------------------------ interface
 
 pub fn check(ctx: &Ctx) -> Vec<PartReport> {
@@ -1065,6 +1095,16 @@ pub fn check(ctx: &Ctx) -> Vec<PartReport> {
             mode: Mode::Enumerate { cases: regroup_grid(), complete: true },
             prop: Box::new(move |c: &Case| budgeted(c, known)),
             require: vec![],
+        },
+    ));
+    out.push(run_part(
+        ctx,
+        PartSpec {
+            name: "incremental-grid",
+            rule: "EXHAUSTIVE over the scripts `init; add-key K0 K1 K2 (all roles); set-threshold root t, others 1; sign -i -k Ka; sign -i -k Kb; sign -k S` with t in {2,3}, a and b in 0..3, S every non-empty subset of the three keys in either argument order (126 scripts): signatures collected over several invocations; a final plain sign that exits 0 must leave a file that verifies. Same oracle after every step. Non-trivial: every script; distinct = sequence of (subcommand, exit status, flags, signature count)",
+            mode: Mode::Enumerate { cases: incremental_grid(), complete: true },
+            prop: Box::new(move |c: &Case| budgeted(c, known)),
+            require: vec![("plain-sign-ok", 20), ("sign-failed", 10)],
         },
     ));
     let n = ctx.cases(150, 3_000);
